@@ -43,6 +43,11 @@ fn gap_class(gap: &[u8]) -> &'static str {
 
 /// One run of the generator exactly as `penne fuzz tokens --kb <kb>` drives it (src/main.rs do_fuzzing).
 pub fn run_one(seed: u64, kb: usize, windows: usize, window_len: usize) -> FuzzRun {
+    run_one_with(seed, kb, windows, window_len, true)
+}
+
+/// `fixed`: also cut the windows at fixed places (the end of the output, around powers of two)
+pub fn run_one_with(seed: u64, kb: usize, windows: usize, window_len: usize, fixed: bool) -> FuzzRun {
     let capacity = kb * 1096;
     let mut buffer = String::with_capacity(capacity);
     let result = std::panic::catch_unwind(move || {
@@ -54,11 +59,22 @@ pub fn run_one(seed: u64, kb: usize, windows: usize, window_len: usize) -> FuzzR
         Ok((Err(e), b)) => (format!("error: {e}"), b),
         Err(_) => ("panic".to_string(), String::new()),
     };
-    let text = buffer.as_bytes();
-    // the API returns a String, so UTF-8 validity is re-checked on the bytes
+    analyze_with(buffer.as_bytes(), status, seed, kb, windows, window_len, fixed)
+}
+
+/// What is recorded about one output of the generator (`text`: the bytes it produced -- through the seeded entry
+/// point, or the file that the real `penne fuzz tokens --kb <kb> --out-dir D` wrote).
+pub fn analyze(text: &[u8], status: String, seed: u64, kb: usize, windows: usize, window_len: usize) -> FuzzRun {
+    analyze_with(text, status, seed, kb, windows, window_len, true)
+}
+
+pub fn analyze_with(text: &[u8], status: String, seed: u64, kb: usize, windows: usize, window_len: usize, fixed: bool) -> FuzzRun {
+    let capacity = kb * 1096;
+    // UTF-8 validity is checked on the bytes
     let utf8 = std::str::from_utf8(text).is_ok();
+    let buffer: String = String::from_utf8_lossy(text).to_string();
     let d = obs::observe_delta(text);
-    let a = obs::observe_alpha(&buffer);
+    let a = if utf8 { obs::observe_alpha(&buffer) } else { json!({"t": []}) };
     let empty = vec![];
     let dt = d["t"].as_array().unwrap_or(&empty);
     let at = a["t"].as_array().unwrap_or(&empty);
@@ -90,25 +106,82 @@ pub fn run_one(seed: u64, kb: usize, windows: usize, window_len: usize) -> FuzzR
         summary["alpha_panic"] = p.clone();
     }
     // line-aligned windows of the two token streams
-    let mut recordings = Vec::new();
     let mut r = Rng::new(seed, 0xf22);
-    let line_starts: Vec<usize> =
-        std::iter::once(0).chain(text.iter().enumerate().filter(|(_, b)| **b == b'\n').map(|(i, _)| i + 1)).collect();
-    for _ in 0..windows {
-        if text.is_empty() || d.get("panic").is_some() || a.get("panic").is_some() {
-            break;
+    let line_starts = line_starts_of(text);
+    let mut spans: Vec<(usize, usize)> = Vec::new();
+    if !(text.is_empty() || d.get("panic").is_some() || a.get("panic").is_some()) {
+        for _ in 0..windows {
+            let li = r.below(line_starts.len());
+            let ws = line_starts[li];
+            if ws >= text.len() {
+                continue;
+            }
+            spans.push((ws, window_end(&line_starts, ws, window_len, text.len())));
         }
-        let li = r.below(line_starts.len());
-        let ws = line_starts[li];
-        if ws >= text.len() {
-            continue;
+        if windows > 0 && fixed {
+            // dimension audit: the END of the output and the neighbourhood of the offsets 2^12, 2^16, 2^17, 2^18, 2^20
+            // are looked at in every run (drawn after the random windows: their seeds stay what they were)
+            spans.extend(fixed_windows(&line_starts, window_len, text.len()));
         }
-        // end: the first line start at least window_len bytes further (or the end of the text)
-        let lj = line_starts.iter().position(|s| *s >= ws + window_len);
-        let we = lj.map(|j| line_starts[j]).unwrap_or(text.len());
-        let first_line = li + 1;
+    }
+    let meta = json!({"seed": seed, "kb": kb});
+    let recordings = cut_windows(text, dt, at, &spans, true, &meta);
+    FuzzRun { summary, recordings }
+}
+
+pub fn line_starts_of(text: &[u8]) -> Vec<usize> {
+    std::iter::once(0).chain(text.iter().enumerate().filter(|(_, b)| **b == b'\n').map(|(i, _)| i + 1)).collect()
+}
+
+/// end of a window that starts at the line start `ws`: the first line start at least `window_len` bytes further
+pub fn window_end(line_starts: &[usize], ws: usize, window_len: usize, len: usize) -> usize {
+    line_starts.iter().position(|s| *s >= ws + window_len).map(|j| line_starts[j]).unwrap_or(len)
+}
+
+/// the last window_len bytes (from a line start to the very end) and one window around each power-of-two offset
+pub fn fixed_windows(line_starts: &[usize], window_len: usize, len: usize) -> Vec<(usize, usize)> {
+    let mut out = Vec::new();
+    let before = |x: usize| -> usize { *line_starts.iter().rev().find(|s| **s <= x).unwrap_or(&0) };
+    let ws = before(len.saturating_sub(window_len));
+    if ws < len {
+        out.push((ws, len));
+    }
+    for b in [1usize << 12, 1 << 16, 1 << 17, 1 << 18, 1 << 20] {
+        if b < len {
+            let ws = before(b.saturating_sub(window_len / 2));
+            let we = window_end(line_starts, ws, window_len, len).max(before(b)).min(len);
+            if ws < we {
+                out.push((ws, we));
+            }
+        }
+    }
+    out
+}
+
+/// Recordings (for spec/Trace_Lex.tla) of the windows [ws, we) of a text: the items of both real lexers that start
+/// inside the window, with offsets and lines rebased to the window.  Both lexers with full location data
+/// (alpha: character offsets).  `noerr`: the recording claims that the text holds no lexical error.
+pub fn cut_windows(text: &[u8], dt: &[Value], at: &[Value], spans: &[(usize, usize)], noerr: bool, meta: &Value) -> Vec<String> {
+    let mut recordings = Vec::new();
+    let line_starts = line_starts_of(text);
+    // character index of every byte offset that starts a character (alpha's unit); only computed when needed
+    let utf8 = std::str::from_utf8(text).is_ok();
+    let mut chars_before: Vec<u32> = Vec::new();
+    if utf8 {
+        chars_before.reserve(text.len() + 1);
+        let mut c = 0u32;
+        for b in text {
+            chars_before.push(c);
+            if (*b & 0xC0) != 0x80 {
+                c += 1;
+            }
+        }
+        chars_before.push(c);
+    }
+    for &(ws, we) in spans {
+        let first_line = 1 + line_starts.iter().take_while(|s| **s <= ws).count() - 1;
+        let first_line = first_line.max(1);
         let slice = &text[ws..we];
-        // delta: byte offsets, rebased
         let mut t: Vec<Value> = dt
             .iter()
             .filter(|it| it[0] != "EndOfSource")
@@ -120,7 +193,7 @@ pub fn run_one(seed: u64, kb: usize, windows: usize, window_len: usize) -> FuzzR
                 let mut it = it.clone();
                 it[1] = json!(it[1].as_u64().unwrap() as usize - ws);
                 it[2] = json!(it[2].as_u64().unwrap() as usize - ws);
-                it[3] = json!(it[3].as_u64().unwrap() as usize + 1 - first_line);
+                it[3] = json!((it[3].as_u64().unwrap() as usize + 1).wrapping_sub(first_line));
                 it
             })
             .collect();
@@ -130,11 +203,19 @@ pub fn run_one(seed: u64, kb: usize, windows: usize, window_len: usize) -> FuzzR
         for _ in 0..2 {
             t.push(json!(["EndOfSource", slice.len(), slice.len(), last_line, slice.len() - last_start, 0, [], "", []]));
         }
-        recordings.push(
-            json!({"g": "delta", "s": slice, "full": true, "noerr": true, "seed": seed, "kb": kb, "at": ws, "t": t}).to_string(),
-        );
+        let mut rec = json!({"g": "delta", "s": slice, "full": true, "at": ws, "t": t});
+        if noerr {
+            rec["noerr"] = json!(true);
+        }
+        for (k, v) in meta.as_object().unwrap() {
+            rec[k] = v.clone();
+        }
+        recordings.push(rec.to_string());
+        if !utf8 {
+            continue;
+        }
         let content_lines = if slice.ends_with(b"\n") { last_line - 1 } else { last_line };
-        // alpha: kinds, payloads and lines only (its offsets drift after CRLF: property C14, not C19)
+        let c0 = chars_before[ws] as usize;
         let t: Vec<Value> = at
             .iter()
             .filter(|it| {
@@ -143,13 +224,20 @@ pub fn run_one(seed: u64, kb: usize, windows: usize, window_len: usize) -> FuzzR
             })
             .map(|it| {
                 let mut it = it.clone();
+                it[1] = json!((it[1].as_u64().unwrap() as usize).wrapping_sub(c0));
+                it[2] = json!((it[2].as_u64().unwrap() as usize).wrapping_sub(c0));
                 it[3] = json!(it[3].as_u64().unwrap() as usize + 1 - first_line);
                 it
             })
             .collect();
-        recordings.push(
-            json!({"g": "alpha", "s": slice, "full": false, "noerr": true, "seed": seed, "kb": kb, "at": ws, "t": t}).to_string(),
-        );
+        let mut rec = json!({"g": "alpha", "s": slice, "full": true, "at": ws, "t": t});
+        if noerr {
+            rec["noerr"] = json!(true);
+        }
+        for (k, v) in meta.as_object().unwrap() {
+            rec[k] = v.clone();
+        }
+        recordings.push(rec.to_string());
     }
-    FuzzRun { summary, recordings }
+    recordings
 }
